@@ -25,7 +25,7 @@ type Config struct {
 	Concurrency    int     `json:"concurrency,omitempty"` // 0 = library default
 	AllowPush      bool    `json:"allow_push,omitempty"`
 	DisableBuiltin bool    `json:"disable_builtin,omitempty"`
-	Chan           string  `json:"chan,omitempty"` // "direct" (Close does not unblock Recv) or "pipe" (it does)
+	Chan           string  `json:"chan,omitempty"` // "direct" (Close does not unblock Recv), "pipe" (it does) or "fragile" (pipe whose Send shares one frame buffer)
 	Salt           uint64  `json:"salt,omitempty"`
 	Pins           []Pin   `json:"pins,omitempty"`
 	NoHooks        bool    `json:"no_hooks,omitempty"`
@@ -293,6 +293,10 @@ func (w *world) assign(ctx context.Context, method string) jrpc2.Handler {
 				case o == "bad":
 					ret = "bad"
 					return make(chan int), nil
+				case o == "baderr":
+					// an *Error whose Data are not valid JSON: the reply must still be an error response
+					ret = "bad"
+					return nil, &jrpc2.Error{Code: 7, Message: fmt.Sprintf("handler error %d", p.K), Data: json.RawMessage(`{"k":`)}
 				case o == "badraw":
 					// a pre-encoded result that is not valid JSON: cannot be marshalled either
 					ret = "bad"
@@ -320,7 +324,7 @@ func (f assignFunc) Assign(ctx context.Context, method string) jrpc2.Handler { r
 func (w *world) connect() {
 	w.conn++
 	var cli, srv channel.Channel
-	if w.cfg.Chan == "pipe" {
+	if w.cfg.Chan == "pipe" || w.cfg.Chan == "fragile" {
 		cli, srv = Pipe()
 	} else {
 		cli, srv = channel.Direct()
@@ -330,6 +334,7 @@ func (w *world) connect() {
 		faults = w.cfg.Faults
 	}
 	sc := Wrap(fmt.Sprintf("srv%d", w.conn), &onceCloser{Channel: srv}, w.cfg.Yield, faults)
+	sc.Fragile = w.cfg.Chan == "fragile"
 	conn := w.conn
 	sc.onEvent = func(kind string, data []byte, err error) {
 		w.log(Event{Kind: kind, Conn: conn, Data: string(data), Err: errStr(err)})
